@@ -448,6 +448,7 @@ func TestVerifC05(t *testing.T) {
 	c05Long(c)
 	c05Reuse(c, mc.Pick(c, 3, 4))
 	c05Stream(c, mc.Pick(c, 4, 5))
+	c05Config(c, mc.Pick(c, 3, 4))
 	if code := c.Finish(); code != 0 {
 		os.Exit(code)
 	}
